@@ -1,5 +1,5 @@
 """helpers shared by the property modules"""
-import os, sys
+import os, re, sys
 sys.path.insert(0, os.path.dirname(os.path.dirname(os.path.abspath(__file__))))
 import translate
 
@@ -28,16 +28,23 @@ def coq_list(items) -> str:
     return "[" + "; ".join(items) + "]"
 
 
-_std = None
+_errtab = None
+def error_table():
+    """[(name, code, message)] read from the GENERATED coq/gen/Gen_Errors.v — the one table the model uses, however
+    it was produced (source text or exhaustive behavioural dump)"""
+    global _errtab
+    if _errtab is None:
+        txt = open(os.path.join(os.path.dirname(os.path.abspath(__file__)), "..", "..", "coq", "gen", "Gen_Errors.v")).read()
+        names = {int(c): n for n, c in re.findall(r"Definition (\w+) : Z := \((-?\d+)\)%Z\.", txt)}
+        body = txt[txt.index("Definition std_errors"):]
+        _errtab = [(names.get(int(c), "?"), int(c), bytes(int(x) for x in re.findall(r"\d+", b)))
+                   for c, b in re.findall(r"\(\((-?\d+)\)%Z, \[([^\]]*)\]%N\)", body)]
+        if not _errtab: raise RuntimeError("coq/gen/Gen_Errors.v has no entries")
+    return _errtab
+
+
 def std_codes():
-    global _std
-    if _std is None:
-        try:
-            _, entries = translate.gen_errors()
-            _std = [c for _, c, _ in entries]
-        except Exception:
-            _std = [-100, -102, -113, -200, -222, -300, -350, -400]
-    return _std
+    return [c for _, c, _ in error_table()]
 
 
 def parse_error_spec(spec: str):
